@@ -525,9 +525,12 @@ pub fn drive(check: &dyn Check, tier: Tier, seed: u64, threads: usize, known: &K
                         let mut bad = None;
                         let mut i = w;
                         while i < n_enum {
-                            let mut obs = Obs { want_desc: rep.samples.len() < 2 && w == 0, ..Obs::default() };
+                            // samples spread over the index space (worker 0 only, up to 6)
+                            let stride = n_enum / threads as u64 / 6 + 1;
+                            let want = w == 0 && rep.samples.len() < 6 && (i / threads as u64) % stride == 0;
+                            let mut obs = Obs { want_desc: want, ..Obs::default() };
                             match guarded_enum(check, i, tier, &mut obs) {
-                                Ok(()) => rep.absorb(obs, 2),
+                                Ok(()) => rep.absorb(obs, 6),
                                 Err(f) => {
                                     if known.matches(id, &f.sig).is_some() {
                                         *rep.known_hits.entry(f.sig.clone()).or_insert(0) += 1;
